@@ -429,3 +429,7 @@ def run(chk):
     _pointwise(chk)
     _engine(chk)
     _step(chk)
+    # 'four section coordinates' on ONE map object: the service returns the map of the current request (shared with C20)
+    from contracts import C20
+    chk.under_contract("hiten.algorithms.types.services.maps:_CenterManifoldMapDynamicsService.compute")
+    C20._cm_map_degree_history(chk)
